@@ -19,6 +19,9 @@ from ..ref import errors as rerr, toy
 
 PROPERTY = 'C01'
 
+# call, pointwise, S1: the sequence contains every ordered pair of entry points
+SEQUENCE = list('cpscspccppss')
+
 
 def chi_error_model(code):
     return getattr(chi, rerr.CHI_CLASS[code])()
@@ -50,7 +53,7 @@ def build_likelihood(case):
     model = ToyModel(case['n_mech'], case['n_toy_outputs'])
     ems = [chi_error_model(c) for c in case['ems']]
     outputs = None
-    if case['sel'] != list(range(case['n_toy_outputs'])):
+    if case['sel'] != list(range(case['n_toy_outputs'])) or case.get('explicit'):
         outputs = ['o%d' % j for j in case['sel']]
     obs, times = case['obs'], case['times']
     if case.get('flat'):
@@ -123,6 +126,56 @@ def w_grid(case):
     if not tol.close(got2, got):
         viol.append({'sub': 'repeat', 'message': 'second evaluation differs',
                      'expected': got, 'observed': got2})
+    # every ordered pair of the three evaluation entry points on the same object
+    for k, ep in enumerate(SEQUENCE):
+        if ep == 'c':
+            v = ll(params.copy())
+        elif ep == 'p':
+            v = float(np.sum(ll.compute_pointwise_ll(params.copy())))
+        else:
+            v = ll.evaluateS1(params.copy())[0]
+        ntr += 1
+        if not tol.close(v, exp_tot):
+            viol.append({'sub': 'sequence', 'message': 'evaluation %d (%s) of the '
+                         'entry-point sequence %s on one object differs from the '
+                         'reference sum' % (k, ep, ''.join(SEQUENCE)),
+                         'expected': exp_tot, 'observed': v,
+                         'behaviour': 'sequence'})
+            break
+    # fixing parameters: the reduced likelihood is the reference at the substituted
+    # vector, for every subset of (mechanistic + error) parameters, in one or two calls
+    extra = []
+    if case.get('fix'):
+        names = ll.get_parameter_names()
+        fix = case['fix']
+        theta = params.copy()
+        for i, v in fix:
+            theta[i] = v
+        free = [i for i in range(len(params)) if i not in [f[0] for f in fix]]
+        half = case.get('split', len(fix))
+        ll.fix_parameters({names[i]: v for i, v in fix[:half]})
+        if fix[half:]:
+            ll.fix_parameters({names[i]: v for i, v in fix[half:]})
+        ntr += 1
+        e_tot, e_pw = reference(case, theta)
+        e_tot = float(np.real(e_tot))
+        if ll.get_parameter_names() != [names[i] for i in free]:
+            viol.append({'sub': 'fix_names', 'message': 'names after fix_parameters '
+                         'are not the unfixed ones in order',
+                         'expected': [names[i] for i in free],
+                         'observed': ll.get_parameter_names()})
+        else:
+            g1 = ll(params[free].copy())
+            g2 = float(np.sum(ll.compute_pointwise_ll(params[free].copy())))
+            g3 = ll.evaluateS1(params[free].copy())[0]
+            g4 = ll(params[free].copy())
+            ntr += 4
+            extra = [g1, g3]
+            if not all(tol.close(g, e_tot) for g in (g1, g2, g3, g4)):
+                viol.append({'sub': 'fixed', 'message': 'log-likelihood with fixed '
+                             'parameters is not the reference sum at the '
+                             'substituted parameter vector', 'expected': e_tot,
+                             'observed': [g1, g2, g3, g4], 'behaviour': 'fixed'})
     # posterior = prior + likelihood
     if case.get('posterior'):
         pri = pints.ComposedLogPrior(*[
@@ -139,7 +192,8 @@ def w_grid(case):
             viol.append({'sub': 'posterior', 'message': 'log-posterior is not '
                          'log-prior + log-likelihood', 'expected': ep,
                          'observed': gp})
-    return {'transitions': ntr, 'outcome': tol.rnd([got, pw]), 'violations': viol}
+    return {'transitions': ntr, 'outcome': tol.rnd([got, pw, extra]),
+            'violations': viol}
 
 
 def w_sbml(case):
@@ -195,11 +249,27 @@ def w_sbml(case):
         viol.append({'sub': 'sbml_s1', 'message': 'SBML-driven evaluateS1 score '
                      'differs', 'expected': exp, 'observed': s1[0],
                      'behaviour': 'sbml_s1'})
-    return {'transitions': 4 + len(pw), 'outcome': tol.rnd([got, gp], 8),
-            'violations': viol}
+    for k, ep in enumerate(SEQUENCE):
+        if ep == 'c':
+            v = ll(params.copy())
+        elif ep == 'p':
+            v = float(np.sum(ll.compute_pointwise_ll(params.copy())))
+        else:
+            v = ll.evaluateS1(params.copy())[0]
+        if not tol.close(v, exp, 1e-7, 1e-9):
+            viol.append({'sub': 'sbml_sequence', 'message': 'evaluation %d (%s) of '
+                         'the entry-point sequence %s on one SBML-driven object '
+                         'differs from the reference sum' % (k, ep,
+                                                             ''.join(SEQUENCE)),
+                         'expected': exp, 'observed': v,
+                         'behaviour': 'sbml_sequence'})
+            break
+    return {'transitions': 4 + len(pw) + len(SEQUENCE),
+            'outcome': tol.rnd([got, gp], 8), 'violations': viol}
 
 
-WORKERS = {'grids': w_grid, 'selection': w_grid, 'sbml': w_sbml}
+WORKERS = {'grids': w_grid, 'selection': w_grid, 'sbml': w_sbml,
+           'fixing': w_grid}
 
 
 def multisets(lattice, max_size):
@@ -279,6 +349,31 @@ def build(tier, seed):
             for ts in itertools.product(ms_s[::2] if tier == 'quick' else ms_s,
                                         repeat=len(sel)):
                 selection.append(make_case(ems, list(ts), 3, sel, seed, tag='s'))
+    # all of the model's outputs, named explicitly, in every order
+    for n_toy in (2, 3):
+        for sel in itertools.permutations(range(n_toy)):
+            for ems in itertools.product(['G', 'CM'], repeat=n_toy):
+                for gi in range(3):
+                    ts = [ms_s[(gi + 2 * j) % len(ms_s)] for j in range(n_toy)]
+                    c = make_case(ems, ts, n_toy, list(sel), seed, tag='p')
+                    c['explicit'] = True
+                    selection.append(c)
+    # every proper non-empty subset of (3 mechanistic + error) parameters fixed, in
+    # one call and split over two calls
+    fixing = []
+    for ems in (['CM'], ['G', 'LN']):
+        ts = [ms_s[4], ms_s[7]][:len(ems)]
+        base = make_case(ems, ts, len(ems), list(range(len(ems))), seed, n_mech=3,
+                         tag='f')
+        n_par = len(base['params'])
+        fv = vals.reals('c01.fixv', n_par, 0.3, 1.4, seed)
+        for r in range(1, n_par):
+            for sub in itertools.combinations(range(n_par), r):
+                for split in sorted({r, r // 2} - {0}):
+                    c = dict(base)
+                    c['fix'] = [[i, fv[i]] for i in sub]
+                    c['split'] = split
+                    fixing.append(c)
     sbml = []
     ms_s2 = multisets(lattice, 2)
     outs2 = [['global.tumour_volume', 'central.drug_concentration'],
@@ -310,7 +405,11 @@ def build(tier, seed):
             Part('grids', grids, w_grid,
                  'outputs x error-model assignment x all time multisets per output'),
             Part('selection', selection, w_grid,
-                 'permuted / partial output selections of a 3-output model'),
+                 'permuted / partial output selections of a 3-output model; all '
+                 'outputs named explicitly in every order'),
+            Part('fixing', fixing, w_grid,
+                 'every proper subset of mechanistic + error parameters fixed (one '
+                 'or two fix_parameters calls), all entry points'),
         ],
         'bounds': {'lattice': lattice, 'max_multiset_size_k1': s1,
                    'max_multiset_size_k2': s2,
